@@ -410,6 +410,13 @@ class Run:
                               f"all nodes honest, answers only delayed / duplicated / lost ({self.applied}): the circuit is "
                               f"ready, hop {k + 1} names node {node.idx}, but no tunnel at that node holds the session keys "
                               f"the originator accepted for this hop")
+                if self.applied and not only_network and ci.state == "READY" and not same:
+                    # key confirmation: whatever was done to the answers, keys the originator ACCEPTS for a hop of a
+                    # circuit it then uses are keys the selected peer holds (an altered answer is refused, not accepted
+                    # with keys nobody shares)
+                    self.fail("K2", "key_confirmation",
+                              f"after {self.applied} the circuit is ready and hop {k + 1} names node {node.idx}, but no "
+                              f"tunnel at that node holds the session keys the originator accepted for this hop")
             if honest and (ci.state != "READY" or len(ci.hops) != ci.goal_hops):
                 self.fail("K1", "build", f"honest build ended in state {ci.state} with {len(ci.hops)}/{ci.goal_hops} hops")
             outcome.append((ci.state, len(ci.hops)))
